@@ -59,7 +59,7 @@ theorem inv_up_state (c : Cfg) (ar aq : Nat) (s' : S) (q : Phase) (b : Base c ar
       q ≠ .DownRecvHeader ∧ q ≠ .DownRecvData ∧ q ≠ .DownRecvTrailer ∧ q ≠ .Oneway := by
     cases q <;> simp [upPhase, fwdPhase, prePhase] at hupq ⊢
   obtain ⟨k1, k2, k4, k9, k10, k11, k12, k13, k14, k20, k21, k22, k31⟩ := b
-  refine ⟨?_, k1, k2, h3, k4, ?_, h6, ?_, ?_, k9, k10, k11, k12, k13, k14, ?_, ?_, ?_, ?_, ?_, k20, k21, k22, ?_, h24, h25, ?_, ?_, h28, ?_, ?_, k31, ?_⟩
+  refine ⟨?_, k1, k2, h3, k4, ?_, h6, ?_, ?_, k9, k10, k11, k12, k13, k14, ?_, ?_, ?_, ?_, ?_, k20, k21, k22, ?_, h24, h25, ?_, ?_, h28, ?_, ?_, k31, ?_, (fun hh => absurd hh (by simp [hcl]))⟩
   · simp [K0, hrun, hcl]
   · intro hh; rw [hpd] at hh; cases hh
   · intro _; exact ⟨hsr, hdir⟩
@@ -115,6 +115,7 @@ theorem headers_finish (c : Cfg) (ar aq : Nat) (s : S) (eos : Bool) (r : Resp) (
     · simp [sndStep, hs, ho1, ho2, ho3, ho4]
     · simp [sndStep]
     · rfl
+    · simp [sndStep]
   | false =>
     have e : onUpstreamHeadersFinish c s false =
         { s with respStarted := true, procDone := false, trace := s.trace ++ [Ev.dh (s.statusVar.getD 0) false] } := by
